@@ -44,12 +44,14 @@ def run(chk):
             chk.count(1, (rec["ev"], rec["nf"], rec["qed"]))
         elif rec["ev"] in ("rotation", "sectors"):
             chk.count(1, (rec["ev"], rec["qed"]))
+        elif rec["ev"] == "intrinsic-labels":
+            chk.count(1, (rec["ev"], rec["nf"]))
         else:
             chk.count(1, (rec["ev"],))
     chk.sample({k: v for k, v in recs[1].items() if k != "rows"})
     chk.sample(next({"ev": x["ev"], "nf": x["nf"], "qed": x["qed"], "lab": x["lab"], "mat_row_9": x["mat"][8]}
                     for x in recs if x["ev"] == "proj" and not x["err"]))
-    bad = F.validate(chk, recs, "real tables and projectors")
+    bad = F.validate(chk, recs, "real tables and projectors", batch=40)
 
     unavailable = {}
     for rec, verdict in bad:
@@ -82,6 +84,8 @@ def run(chk):
                 f"(nf={rec['nf']}, qed={rec['qed']}) violate {verdict}",
                 rec,
             )
+        elif rec["ev"] == "intrinsic-labels":
+            chk.violation(f"{verdict} nf={rec['nf']}", f"intrinsic_unified_evol_labels({rec['nf']}) = {rec['labels']} violates {verdict}", rec)
         else:
             chk.violation(f"{verdict} {b}", f"basis_rotation tables ({rec['ev']}, {b}) violate {verdict}", rec)
     for fp, info in sorted(unavailable.items()):
